@@ -1046,4 +1046,101 @@ Section Reset2.
         apply (dictfieldB f0 HB f') in E; [|assumption]. inversion R; subst. rewrite !reset_dict_eq, E. reflexivity.
       + b_case R reset_dictkey_eq FB.
   Qed.
+
+  (** * The old fragment is part of the new one *)
+  Lemma scalars_xarg s l : scalars l = true -> Forall (xarg s) l.
+  Proof.
+    induction l as [|a r IH]; intro H; [constructor|]. destruct a; try discriminate H. constructor; [apply xarg_val|apply IH; exact H].
+  Qed.
+
+  Lemma flat_xpat s p : flat p = true -> xpat s p.
+  Proof.
+    intro Hf. destruct p; try discriminate Hf.
+    - apply XP_const.
+    - destruct sequence as [| |l| |]; try discriminate Hf. destruct repeats as [vrep| | | |]; try discriminate Hf.
+      apply XP_seq; [apply scalars_xarg; exact Hf|apply xarg_val].
+    - cbn in Hf. repeat match type of Hf with context [match ?x with _ => _ end] => is_var x; destruct x; try discriminate Hf end.
+      apply XP_series; apply xarg_val.
+    - cbn in Hf. repeat match type of Hf with context [match ?x with _ => _ end] => is_var x; destruct x; try discriminate Hf end.
+      apply XP_range; apply xarg_val.
+    - cbn in Hf. repeat match type of Hf with context [match ?x with _ => _ end] => is_var x; destruct x; try discriminate Hf end.
+      apply XP_geom; apply xarg_val.
+    - cbn in Hf. repeat match type of Hf with context [match ?x with _ => _ end] => is_var x; destruct x; try discriminate Hf end.
+      apply XP_impulse; apply xarg_val.
+  Qed.
+
+  Lemma rpat_xpat : forall p, rpat p -> xpat false p
+  with rarg_xarg : forall a, rarg a -> xarg false a.
+  Proof.
+    - intros p H. destruct H.
+      + destruct p; try discriminate H; [apply XP_const|].
+        destruct sequence as [| |l| |]; try discriminate H. destruct repeats as [vrep| | | |]; try discriminate H.
+        apply XP_seq; [apply scalars_xarg; exact H|apply xarg_val].
+      + apply XP_abs, rarg_xarg; assumption.
+      + apply XP_int, rarg_xarg; assumption.
+      + apply XP_binop; apply rarg_xarg; assumption.
+      + apply XP_and; apply rarg_xarg; assumption.
+      + apply XP_skipif; apply rarg_xarg; assumption.
+      + apply XP_counter, rarg_xarg; assumption.
+      + apply XP_pad, rarg_xarg; assumption.
+      + apply XP_padm, rarg_xarg; assumption.
+      + apply XP_stutter; apply rarg_xarg; assumption.
+      + apply XP_series; apply rarg_xarg; assumption.
+      + apply XP_range; apply rarg_xarg; assumption.
+      + apply XP_geom, rarg_xarg; assumption.
+      + apply XP_impulse, rarg_xarg; assumption.
+      + apply XP_loop, rarg_xarg; assumption.
+      + apply XP_pingpong. discriminate.
+      + apply XP_reverse. discriminate.
+      + apply XP_changed, rarg_xarg; assumption.
+      + apply XP_diff, rarg_xarg; assumption.
+      + apply XP_collapse, rarg_xarg; assumption.
+      + apply XP_norepeats, rarg_xarg; assumption.
+      + apply XP_subsequence; apply rarg_xarg; assumption.
+      + apply XP_wrap, rarg_xarg; assumption.
+      + apply XP_ref, rarg_xarg; assumption.
+      + apply XP_reset; [apply flat_xpat; assumption|apply rarg_xarg; assumption].
+    - intros a H. destruct H; [apply xarg_val|apply XA_pat, rpat_xpat; assumption].
+  Qed.
+
+  (** * The theorems, read off *)
+  Theorem reset_step2 s f f' p : xpat s p -> reset f (snd (step f' p)) = reset f p.
+  Proof. apply (proj1 (reset_AB f)). Qed.
+
+  Theorem reset_reset2 f f' p q : xpat true p -> reset f' p = Yield q -> reset f q = reset f p.
+  Proof. apply (proj2 (reset_AB f)). Qed.
+
+  (* any history of next() and reset() calls (each with any outcome; a reset() that fails leaves the object as it was) *)
+  Inductive hop := HNext | HReset.
+  Definition hdo (f' : nat) (p : pat) (o : hop) : pat :=
+    match o with
+    | HNext => snd (step f' p)
+    | HReset => match reset f' p with Yield q => q | _ => p end
+    end.
+  Definition hrun (f' : nat) (h : list hop) (p : pat) : pat := fold_left (hdo f') h p.
+
+  Lemma hrun_closed f' h : forall p, xpat true p -> xpat true (hrun f' h p).
+  Proof.
+    induction h as [|o h IH]; intros p Hp; [exact Hp|]. cbn [hrun fold_left]. apply IH. destruct o; cbn [hdo].
+    - apply xpat_step_closed. exact Hp.
+    - destruct (reset f' p) as [q| | | |] eqn:R; try exact Hp. eapply xpat_reset_closed; eauto.
+  Qed.
+
+  Theorem reset_hrun f f' h : forall p, xpat true p -> reset f (hrun f' h p) = reset f p.
+  Proof.
+    induction h as [|o h IH]; intros p Hp; [reflexivity|]. cbn [hrun fold_left].
+    assert (Hp' : xpat true (hdo f' p o)) by (apply (hrun_closed f' [o]); exact Hp).
+    change (reset f (hrun f' h (hdo f' p o)) = reset f p). rewrite IH by exact Hp'. destruct o; cbn [hdo].
+    - apply (reset_step2 true). exact Hp.
+    - destruct (reset f' p) as [q| | | |] eqn:R; try reflexivity. eapply reset_reset2; eauto.
+  Qed.
+
+  Lemma run_closed2 s f' k : forall p, xpat s p -> xpat s (run binop LMAX f' k p).
+  Proof. induction k as [|k IH]; intros p H; [exact H|]. cbn [run]. apply IH. apply xpat_step_closed. exact H. Qed.
+
+  Theorem reset_run2 s f f' k : forall p, xpat s p -> reset f (run binop LMAX f' k p) = reset f p.
+  Proof.
+    induction k as [|k IH]; intros p H; [reflexivity|]. cbn [run].
+    rewrite IH by (apply xpat_step_closed; exact H). apply reset_step2 with (s := s). exact H.
+  Qed.
 End Reset2.
